@@ -32,24 +32,36 @@ fn proj(w: &mut World) -> Value {
 	let mut out = Map::new();
 	if let Some(ws) = o["w"].as_object() {
 		for (n, wv) in ws {
+			// log ids are assigned in HashMap / commitment order when one batch creates several
+			// entries (named havoc of the model): entries are compared as a multiset of their
+			// contents and an output's link names the content of the entry it points to
+			let ent = |acct: &Value, id: &Value| -> Value {
+				let k = format!("{}i{}", acct.as_str().unwrap_or(""), id);
+				match wv["txs"].get(&k) {
+					Some(v) => json!({"ty": v["ty"], "conf": v["conf"], "slate": v["slate"], "cr": v["cr"], "db": v["db"]}),
+					None => json!("none"),
+				}
+			};
 			let mut outs = Map::new();
 			if let Some(m) = wv["outs"].as_object() {
 				for (k, v) in m {
-					outs.insert(k.clone(), json!({"st": v["st"], "v": v["v"], "tx": v["tx"], "acct": v["acct"], "cb": v["cb"]}));
+					outs.insert(k.clone(), json!({"st": v["st"], "v": v["v"], "tx": ent(&v["pa"], &v["tx"]), "acct": v["acct"], "cb": v["cb"]}));
 				}
 			}
-			let mut txs = Map::new();
+			let mut txl: Vec<String> = vec![];
 			if let Some(m) = wv["txs"].as_object() {
-				for (k, v) in m {
-					txs.insert(k.clone(), json!({"ty": v["ty"], "conf": v["conf"], "kern": v["kern"], "proof": v["proof"],
-						"cr": v["cr"], "db": v["db"], "slate": v["slate"]}));
+				for (_, v) in m {
+					txl.push(json!({"acct": v["acct"], "ty": v["ty"], "conf": v["conf"], "kern": v["kern"], "proof": v["proof"],
+						"cr": v["cr"], "db": v["db"], "slate": v["slate"]}).to_string());
 				}
 			}
+			txl.sort();
+			let txs: Vec<Value> = txl.iter().map(|s| serde_json::from_str(s).unwrap()).collect();
 			let ctxs: Vec<String> = wv["ctxs"].as_object().map(|m| m.keys().cloned().collect()).unwrap_or_default();
 			let mut idx = Map::new();
 			if let Some(m) = wv["idx"].as_object() {
 				for (k, v) in m {
-					idx.insert(k.clone(), json!({"child": v["child"], "log": v["log"], "confh": v["confh"]}));
+					idx.insert(k.clone(), json!({"child": v["child"], "log": v["log"]}));
 				}
 			}
 			out.insert(n.clone(), json!({"outs": outs, "txs": txs, "ctxs": ctxs, "idx": idx, "files": wv["files"]}));
